@@ -6,7 +6,7 @@
    signer — the VM itself is not modelled here; the block the ledger accepts is C06's matter, here the
    conditions a packed prefix satisfies are proved. *)
 From NG Require Import Common.Tactics Admission.Fee Admission.FeeProofs Admission.Admit Admission.AdmitProofs
-  Admission.Conflicts Admission.Refresh Admission.RefreshBal Admission.FeeRounding Admission.VMScripts Admission.VMFeeProofs Admission.PackSize Admission.Examples Mempool.Model Mempool.Spec Mempool.Examples.
+  Admission.Conflicts Admission.Refresh Admission.RefreshBal Admission.FeeRounding Admission.Attrs Admission.VMScripts Admission.VMFeeProofs Admission.PackSize Admission.Examples Mempool.Model Mempool.Spec Mempool.Examples.
 From NG Require VM.Model.
 Open Scope N_scope.
 
@@ -152,6 +152,35 @@ Theorem C07_fee_threshold_exact : forall c t base shapes,
   (precheck c t = None <-> f_size t * c_fee_per_byte c + f_attr_fee t + calculated_fee base shapes <= f_netfee t).
 Proof. exact fee_threshold_exact. Qed.
 Print Assumptions C07_fee_threshold_exact.
+
+(* ---- the attribute rules (Transaction.isValid at decoding + verifyTxAttributes) are rules about the whole attribute
+   LIST as a multiset: at most 16 attributes and signers together, HighPriority / NotValidBefore / OracleResponse /
+   NotaryAssisted at most once, every attribute in order for its type, and the hashes named by the Conflicts
+   attributes - taken out of the mixed list - duplicate-free. [f_attrs_ok] of the admission model is this predicate.
+   Which attribute precedes which is irrelevant: *)
+Theorem C07_attr_rules_meaning : forall c l,
+  attrs_ok c l = true <->
+  (length l + a_signers c <= max_attributes)%nat /\ NoDup (singles l) /\ Forall (fun a => attr_ok c a = true) l /\ NoDup (conf_hashes l).
+Proof. exact attrs_ok_iff. Qed.
+Print Assumptions C07_attr_rules_meaning.
+Theorem C07_attr_rules_permutation_invariant : forall c l l', Permutation.Permutation l l' -> attrs_ok c l = attrs_ok c l'.
+Proof. exact attrs_ok_permutation_invariant. Qed.
+Print Assumptions C07_attr_rules_permutation_invariant.
+
+(* a duplicate search that walks the mixed list with index i and compares with the entries from i+1 on of the
+   FILTERED Conflicts list finds [X;X], [X;Y;X], [X;X;NVB] and misses [NVB;X;X], [NVB;Y;X;X]; one that compares
+   adjacent attributes only misses [X;NVB;X] *)
+Theorem C07_attr_mixed_index_loop_refuted :
+  attrs_ok_mixed_index ax_ctx [AConf 7; AConf 7] = false
+  /\ attrs_ok_mixed_index ax_ctx [AConf 7; AConf 8; AConf 7] = false
+  /\ attrs_ok_mixed_index ax_ctx [AConf 7; AConf 7; ANvb 3] = false
+  /\ attrs_ok_mixed_index ax_ctx [ANvb 3; AConf 7; AConf 7] = true
+  /\ attrs_ok_mixed_index ax_ctx [ANvb 3; AConf 8; AConf 7; AConf 7] = true
+  /\ attrs_ok ax_ctx [ANvb 3; AConf 7; AConf 7] = false
+  /\ attrs_ok ax_ctx [ANvb 3; AConf 8; AConf 7; AConf 7] = false
+  /\ adjacent_dup [AConf 7; ANvb 3; AConf 7] = false /\ attrs_ok ax_ctx [AConf 7; ANvb 3; AConf 7] = false.
+Proof. exact mixed_index_loop_refuted. Qed.
+Print Assumptions C07_attr_mixed_index_loop_refuted.
 
 (* ---- the execution fee factor is ANY number of picoGAS. Since Faun the committee sets the factor in picoGAS, so it
    need not be a whole number of Datoshi (300001). [base] is universally quantified in every exactness theorem above;
